@@ -31,7 +31,8 @@ ASSUME = ["single inheritance; a generic class's first base is a generic alias o
           "have one type parameter and annotated, lambda-free methods", "lambdas supplied as strings or ast objects"]
 RULE = ("random class models (inheritance depth <= 3, 1-2 type parameters renamed and reordered along the chain, type variables "
         "at nesting depth 0-3 in return annotations, in base-class arguments and in an Iterable base, classes named like typing "
-        "exports (Container, Sequence, Collection, Reversible), fixed "
+        "exports (Container, Sequence, Collection, Reversible), class- and method-level callbacks that return a new call node "
+        "(renamed / wrapped) on classes whose method results are used as sub-expressions, fixed "
         "non-generic subclasses, Iterable subclasses with extra parameters, a registered custom collection, unannotated "
         "methods) and well-typed expressions generated with their expected type (method chains, Select/SelectMany/Where/"
         "First/Count/len/subscript at depth <= 3, comparisons, and/or, int/float arithmetic, dict fields, conditionals); "
@@ -150,7 +151,22 @@ class Spec:
             cl.append(d)
         cl.append({"name": "MyColl", "base": "ObjectStream[M]", "collection": True,
                    "methods": [{"name": m, "params": [], "ret": src(t)} for m, t in self.coll_methods.items()]})
-        return {"typevars": used, "classes": cl, "functions": [], "callbacks": {}}
+        # callbacks that add metadata and may return a NEW call node (renamed method / wrapped call): whatever a callback
+        # returns, the type of the call is the annotated one and everything computed from it follows
+        r = self.r
+        cbs = {}
+        for d in cl:
+            if r.random() < 0.55:
+                cid = "c_" + d["name"]
+                d["cb"] = cid
+                cbs[cid] = {"md": ({cid: 1} if r.random() < 0.5 else None),
+                            "rw": r.choice([("id",), ("rename", "rn_" + d["name"]), ("rename", "rn_" + d["name"]), ("wrap", "w_" + d["name"])])}
+            for m in d["methods"]:
+                if r.random() < 0.2:
+                    cid = "m_%s_%s" % (d["name"], m["name"])
+                    m["cb"] = cid
+                    cbs[cid] = {"md": None, "rw": r.choice([("rename", m["name"] + "_v2"), ("wrap", "wm"), ("id",)])}
+        return {"typevars": used, "classes": cl, "functions": [], "callbacks": cbs}
 
     # what the annotations imply
     def method(self, t, name):
